@@ -71,6 +71,8 @@ type caseSpec struct {
 	Diffs    []string  `json:"diffs,omitempty"`
 	Selected []string  `json:"selected,omitempty"`
 	RAType   string    `json:"ra_type,omitempty"`
+	// NoRAHeader: the remedy's optional retry_after_header is omitted (responses still carry "Retry-After")
+	NoRAHeader bool `json:"retry_after_header_omitted,omitempty"`
 	MaxMB    float32   `json:"max_mb,omitempty"`
 	MaxRaw   int       `json:"max_raw,omitempty"`
 	Target   string    `json:"target,omitempty"`
@@ -324,8 +326,12 @@ func newThrottleT(clk *stepClock, cs *caseSpec) *throttleT {
 	if cs.RAType == "absolute" {
 		ty = sharedConfig.RetryAfterAbsoluteEpoch
 	}
+	name := raHeader
+	if cs.NoRAHeader {
+		name = ""
+	}
 	return &throttleT{p: remedies.NewResponseBasedThrottlingPlugin(clk),
-		cfg: &sharedConfig.ResponseBasedThrottlingConfig{RetryAfterHeader: raHeader, RetryAfterType: ty,
+		cfg: &sharedConfig.ResponseBasedThrottlingConfig{RetryAfterHeader: name, RetryAfterType: ty,
 			RelevantStatuses: relevantStatuses}}
 }
 
@@ -1202,6 +1208,7 @@ func genCache(r *sim.Rand, idx int) caseSpec {
 
 func genThrottle(r *sim.Rand, idx int) caseSpec {
 	cs := caseSpec{Kind: "throttle", Policy: policyOf(r), FracNs: fracOf(r), RAType: sim.Pick(r, []string{"relative", "relative", "absolute"})}
+	cs.NoRAHeader = r.Chance(1, 10)
 	k0 := keySpec{Method: "GET", URL: "b.com/t/1"}
 	cs.Keys = []keySpec{k0}
 	for _, vr := range sim.Pick(r, [][]string{{"method"}, {"url"}, {"method", "url"}, {"urlcase"}, {"url", "urlcase"}}) {
